@@ -34,9 +34,17 @@ def rand_graph(rng, nmax=6, allow_parallel=True, allow_loops=False, nmin=1):
 
 
 def mk_graph(n, edges):
+    """The Graph object for (n, edges).  For about a third of the graphs the object is OBSERVED half-way through its
+    construction (every public accessor is read, the line graph is taken) before the remaining edges are added: reading a
+    graph must not freeze or alias anything, `add_edge` afterwards must still count."""
     from cspuz.graph import Graph
     g = Graph(n)
-    for a, b in edges:
+    observe_at = len(edges) // 2 if (len(edges) >= 2 and (n + 3 * len(edges)) % 3 == 1) else None
+    for k, (a, b) in enumerate(edges):
+        if k == observe_at:
+            _ = [list(x) for x in g.incident_edges]
+            _ = (len(g), list(g), g[0], g.num_vertices, list(g.edges))
+            _ = g.line_graph()
         g.add_edge(a, b)
     return g
 
